@@ -110,8 +110,8 @@ theorem addCaCerts_mem (roots : List Root) (ps : List (Pem Root)) (out : List Ro
       simp [pemRoots, List.flatMap_cons]
       grind
 
-/-- What a successfully built connector contains. -/
 set_option linter.unusedSimpArgs false in
+/-- What a successfully built connector contains. -/
 theorem connector_new_ok (sys : Sys Root) (cfg : ClientTlsConfig Root Chain) (d : String)
     (t : TlsConnector Root Chain) (h : TlsConnector.new sys cfg d = .ok t) :
     (∀ r, r ∈ t.roots ↔ cfgRoots sys cfg r) ∧ t.domain = d ∧ t.assumeHttp2 = cfg.assumeHttp2 ∧
